@@ -190,6 +190,19 @@ PROPS["C16"] = dict(
     assumptions=["the printer emits what the model says (the same printer feeds C01-C04, whose verdict oracles would expose a disagreement)"],
     jobs=[job("ast", "^TestAST$", (4, 16), (2500, 25000), (600, 3000))],
 )
+PROPS["C13"] = dict(
+    pkg="c13", level="exploration",
+    technique="metamorphic testing: one abstract schema printed in a canonical and a re-spelled style (1-5 meaning-preserving rewrites) must give equal Check verdicts, ASTs (comments aside) and validation verdicts; documents re-spelled by blanks, property order and escape sequences",
+    level_text=("Bounded exploration of (schema, rewrite composition) pairs over three generator families (including schemas Check rejects): LF/CRLF/CR, indentation, # and ### user comments, inline vs multi-line "
+                "(also one-rule-per-line) annotations, quoted rule names, trailing comma, blank lines, rule order. Relation between runs: same Check verdict, same AST modulo comments (rule order normalised when "
+                "permuted), same verdict on a shared batch of documents; and for documents, the same verdict under re-spelling. Sampled."),
+    level_note="trusted: that each printer style knob is meaning-preserving (they were validated against the pinned tree: all combinations are accepted identically there); duplicate-key documents are not reordered",
+    rule=("schema pairs: model x 1-5 rewrites drawn from 10 kinds; documents: the example, instances and structural mutants (6-7 per schema). non-trivial = >=2 rewrite kinds and the schema has an annotation; "
+          "document pairs: blanks / property order / per-rune escape spelling (raw, \\uXXXX both cases, short escapes, surrogate pairs); non-trivial = some token changed. distinct by (canonical, respelled)"),
+    assumptions=["printer styles are meaning-preserving by the language definition (new-line conventions, comments and annotation forms are listed in the statement)"],
+    jobs=[job("schema", "^TestSchemaRespelling$", (4, 16), (1500, 15000), (600, 3000)),
+          job("document", "^TestDocumentRespelling$", (2, 8), (2500, 25000), (600, 3000))],
+)
 
 _UNBUILT = "check under construction in this session (see DESIGN.md section 5 for the planned design)"
 NOT_APPLICABLE = [dict(property_id="C%02d" % i, reason=_UNBUILT) for i in range(1, 20) if "C%02d" % i not in PROPS]
